@@ -110,6 +110,7 @@ TF_TABLE = [
     ("tagged-hash", "tagged_hash", ["TapLeaf", H32]),
     ("taproot-tweak-pubkey", "taproot_tweak_pubkey", [G_X, H32]),
     ("tweak-pubkey", "tweak_pubkey", [H32, G_PUB]),
+    ("verify-sig", "verify_sig", [H32, G_X, SIG64]),          # the Schnorr branch (x-only key); listed before the ECDSA row, which stays the row looked up by name
     ("verify-sig", "verify_sig", [H32, G_PUB, DERSIG]),
     ("verify-sig-compact", "verify_sig_compact", [H32, G_PUB, SIG64]),
 ]
@@ -535,6 +536,60 @@ def tx_field_devs(hexs, prefix_len=0, script_bytes=False):
                     for dlt in (1, -1):
                         nb = (b[o + k] + dlt) & 0xff
                         out.append(("txfield-script-byte", "%s[%d]%+d" % (name, k, dlt), put(f, b[o:o + k] + bytes([nb]) + b[o + k + 1:o + l])))
+    # structure: one more input (unrelated outpoint, empty scriptSig, empty witness) appended / prepended, one more output, no outputs
+    fm = {f[0]: f for f in F}
+    nin = fm["vin.count"][4]
+    if 1 <= nin < 250 and fm["vin.count"][3] == 1 and fm["vout.count"][3] == 1:
+        lt = fm["locktime"]
+        seg = "marker" in fm
+        extra_in = bytes([0x77]) * 32 + struct.pack("<I", 1) + b"\x00" + b"\xfe\xff\xff\xff"
+        vc = fm["vin.count"]
+        first_in = fm["vin0.hash"][2]
+        end_ins = fm["vout.count"][2]
+        for (where, desc) in ((end_ins, "appended"), (first_in, "prepended")):
+            nb = bytearray(b)
+            # witness of the new input (empty stack) goes to the matching place in the witness section
+            if seg:
+                wpos = lt[2] if where == end_ins else fm["wit0.count"][2]
+                nb[wpos:wpos] = b"\x00"
+            nb[where:where] = extra_in
+            nb[vc[2]] = nin + 1
+            out.append(("txfield-structure", "one more input %s" % desc, pre + bytes(nb).hex()))
+        nout = fm["vout.count"][4]
+        if nout < 250:
+            endouts = (fm["wit0.count"][2] if seg else lt[2])
+            nb = bytearray(b)
+            nb[endouts:endouts] = struct.pack("<q", 1000) + b"\x01\x51"
+            nb[fm["vout.count"][2]] = nout + 1
+            out.append(("txfield-structure", "one more output", pre + bytes(nb).hex()))
+        if nout >= 1:
+            startouts = fm["vout0.value"][2]
+            endouts = (fm["wit0.count"][2] if seg else lt[2])
+            nb = bytearray(b)
+            del nb[startouts:endouts]
+            nb[fm["vout.count"][2]] = 0
+            out.append(("txfield-structure", "no outputs", pre + bytes(nb).hex()))
+    # funding-output scripts that are witness programs: other program lengths and versions (the length byte and the data change together)
+    if script_bytes:
+        for f in F:
+            name, kind, o, l, v = f
+            if kind != "bytes" or not name.startswith("vout") or not (4 <= l <= 42):
+                continue
+            spk = b[o:o + l]
+            if not ((spk[0] == 0 or 0x51 <= spk[0] <= 0x60) and spk[1] == l - 2):
+                continue
+            prog = spk[2:]
+            lf = next((g for g in F if g[0] == name + ".len"), None)
+            if lf is None or lf[3] != 1:
+                continue
+            for plen in (2, 20, 31, 32, 33, 40):
+                for ver in (spk[0], 0x00, 0x51, 0x52, 0x60):
+                    if plen == len(prog) and ver == spk[0]:
+                        continue
+                    np = (prog + bytes([0x42]) * 40)[:plen]
+                    nspk = bytes([ver, plen]) + np
+                    out.append(("txfield-witness-program", "%s: version %02x, %d-byte program" % (name, ver, plen),
+                                pre + (b[:lf[2]] + bytes([len(nspk)]) + nspk + b[o + l:]).hex()))
     return out
 
 
@@ -656,7 +711,7 @@ def slot_deviations(base, i, tier):
     if vt == "pv":
         a, _, c = val.partition(":")
         for pvv in (":", "::", a + ":", ":" + c, val + ",", val + ":" + c, ",", a + "," + c, val + "," + val, a, "x:y", "[:]",
-                    "[OP_1:OP_2]", a + ":[" + c):
+                    "[OP_1:OP_2]", a + ":[" + c, "int(0x0102030405):02", "02:int(0x0102030405)", "jacobi_sym([3 0]):02", "bech32dec(x):02", "nosuchfn(1):02"):
             rep("pretend-valid-structure", pvv[:24] + ("..." if len(pvv) > 24 else ""), pvv)
     if vt == "txamt":
         amt, _, rest = val.partition(":")
